@@ -53,6 +53,7 @@ func runC19(p *core.Prog, r *core.Result) {
 		"R19.6 the loader assigns no decoded field of Config, and of a requirement only its path (CleanPath): name, version and ignore list are returned as written",
 		"R19.7 path cleaning on load keeps every version suffix except the ones compared equal to a constant (\"\", v0, v1): JoinPathVersion returns the bare path only on edges where the major version was tested equal to a string constant, and otherwise a string built from the path, \"@\" and the major version in that order - an ordering or validity test (semver.Compare, IsValid) in that place drops an open-ended family of suffixes, so an already clean path such as tools/gen@edge loads back as tools/gen and get/tidy rewrite it",
 		"R19.8 rewriting an existing file leaves nothing of the old contents behind: the writer opens its destination with os.Create, or with os.OpenFile whose constant flags include O_TRUNC (or writes a fresh temporary that is renamed over it) - without truncation a shorter configuration (tidy dropping requirements) keeps the tail of the old file, which is often still valid TOML: the dropped requirements come back",
+		"R19.9 what get and tidy can write, the loader accepts: the loader admits a requirement version only if semver.IsValid(v) and semver.Canonical(v) == v, so every version a repository lists (the only source of versions for get's queries) is admitted to the list on the edge where the same two tests hold - a tag such as v1.3 or v1.4.0+build7 would otherwise be resolved by `get x@latest`, written to dawn.toml, and make the file unloadable",
 		"R19.5 loading a configuration touches no package-level state: every load decodes the bytes afresh, so no two loaded configurations share maps or slices through a cache",
 		"R19.4 every format string of the writer is a constant: configuration data is only ever an operand, never the format",
 		"R19.1 the hand-written writer emits every toml-tagged field of Config and RequirementConfig, under the key given by the field's tag",
@@ -277,6 +278,9 @@ func runC19(p *core.Prog, r *core.Result) {
 			r.OK("R19.6", "internal/project.LoadConfigBytes#decoded-fields-untouched", p.Pos(lb.Pos()), "no decoded field is assigned by the loader")
 		}
 	}
+
+	// ---- R19.9 what get can write, the loader accepts
+	checkListedVersionsLoadable(p, r, "R19.9")
 
 	// ---- R19.8 the writer starts from an empty file
 	checkWriterTruncates(p, r, w, "R19.8")
@@ -822,4 +826,79 @@ func checkWriterTruncates(p *core.Prog, r *core.Result, w *ssa.Function, rule st
 		}
 	}
 	r.Floor(rule, n, 1, "calls that open the writer's destination")
+}
+
+// checkListedVersionsLoadable implements R19.9 (sibling agreement between the loader's version predicate and the lister's).
+func checkListedVersionsLoadable(p *core.Prog, r *core.Result, rule string) {
+	const pkgSemver = "golang.org/x/mod/semver"
+	pkgVcs := core.ModulePath + "/internal/vcs"
+	// the loader's predicate, read off LoadConfigBytes: which semver tests guard the "invalid version" error
+	lb := need(p, r, rule, "internal/project", "", "LoadConfigBytes")
+	if lb == nil {
+		return
+	}
+	usesValid, usesCanonical := false, false
+	for f := range staticClosure(p, lb) {
+		if f.Pkg != lb.Pkg {
+			continue
+		}
+		for _, c := range core.Calls(f) {
+			if core.IsCallTo(c, pkgSemver, "IsValid") {
+				usesValid = true
+			}
+			if core.IsCallTo(c, pkgSemver, "Canonical") {
+				usesCanonical = true
+			}
+		}
+	}
+	r.Check(usesValid, rule, "internal/project.LoadConfigBytes#predicate", p.Pos(lb.Pos()), fmt.Sprintf("the loader tests requirement versions with semver.IsValid (canonical form also required: %v)", usesCanonical), "the loader no longer validates requirement versions with semver.IsValid: the predicate the lister must agree with is not recognised")
+	n := 0
+	for _, fn := range p.ModuleFuncs() {
+		if fn.Pkg == nil || fn.Pkg.Pkg.Path() != pkgVcs {
+			continue
+		}
+		k := 0
+		core.Instrs(fn, func(in ssa.Instruction) {
+			st, ok := in.(*ssa.Store)
+			if !ok {
+				return
+			}
+			inner, ok := st.Addr.(*ssa.FieldAddr)
+			if !ok {
+				return
+			}
+			outer, ok := inner.X.(*ssa.FieldAddr)
+			if !ok || !core.IsField(outer, pkgVcs, "Version", "Version") {
+				return
+			}
+			if _, f := core.FieldOf(inner); f != "Version" {
+				return
+			}
+			n++
+			k++
+			v := st.Val
+			valid, canonical := false, false
+			for _, xf := range xfacts(p, st) {
+				switch c := xf.Cond.(type) {
+				case *ssa.Call:
+					if core.IsCallTo(c, pkgSemver, "IsValid") && xf.Val && xf.Arg(c.Call.Args[0]) == v {
+						valid = true
+					}
+				case *ssa.BinOp:
+					if !(c.Op == token.EQL && xf.Val || c.Op == token.NEQ && !xf.Val) {
+						continue
+					}
+					for _, pr := range [][2]ssa.Value{{c.X, c.Y}, {c.Y, c.X}} {
+						cc, ok := pr[0].(*ssa.Call)
+						if ok && core.IsCallTo(cc, pkgSemver, "Canonical") && xf.Arg(cc.Call.Args[0]) == v && xf.Arg(pr[1]) == v {
+							canonical = true
+						}
+					}
+				}
+			}
+			okAll := valid && (canonical || !usesCanonical)
+			r.Check(okAll, rule, fmt.Sprintf("%s#listed-version-is-loadable-%d", fname(fn), k), p.InstrPos(st), "a tag is listed as a version only where it passed the loader's tests (valid, and canonical)", "a tag is listed as a version without having passed both of the loader's tests (semver.IsValid and semver.Canonical(v) == v): get can resolve to v1.3 or v1.4.0+build7, writes it to dawn.toml, and the file no longer loads")
+		})
+	}
+	r.Floor(rule, n, 1, "versions listed from repository tags")
 }
